@@ -205,6 +205,27 @@ def expand(tpl_path, canary=False, only_props=None):
             recursor_file = parse_kv(s[len('//@recursor'):])['file']
             i += 1
             continue
+        if s.startswith('//@lemma'):
+            # hand-written proof fn in the template that counts as an obligation of some property
+            opts = parse_kv(s[len('//@lemma'):])
+            u = Unit()
+            u.kind = 'lemma'
+            u.id = opts['name']
+            u.file = os.path.relpath(tpl_path, os.path.dirname(os.path.dirname(os.path.abspath(__file__))))
+            u.path = ['lemma:' + opts['name']]
+            u.props = opts.get('props', '').split(',') if opts.get('props') else []
+            first = cur_line()
+            j = i + 1
+            while j < len(lines) and not lines[j].startswith('}'):
+                j += 1
+            body = '\n'.join(lines[i + 1:j + 1])
+            u.sha256 = hashlib.sha256(body.encode()).hexdigest()
+            u.span = [i + 2, j + 1]
+            u.gen_lines = [first, first + (j - i)]
+            u.emitted = [(opts['name'], first, first + (j - i))]
+            units.append(u)
+            i += 1
+            continue
         if s.startswith('//@fn') or s.startswith('//@item'):
             is_fn = s.startswith('//@fn')
             opts = parse_kv(s[5:] if is_fn else s[7:])
